@@ -89,7 +89,7 @@ def cfg_C01(tier, rng):
     return [dict(name='bundles', charts=gc.family_f2(rng, k) + gc.family_nested(rng, 40 if tier == QUICK else 500)
                  + shipped(need=lambda c: any(t['gk'] == 'oracle' for t in c['trans']), max_oracle=6),
                  consts=dict(MaxQ=1, MaxLevel=6 if tier == QUICK else 8),
-                 variants=[dict(variant='api')],
+                 variants=[dict(variant='api', pool='chars')],
                  random=dict(count=150 if tier == QUICK else 1500, length=12,
                              family=lambda r, kk: gc.family_f3(r, kk, nmin=5, nmax=9)))]
 
